@@ -105,6 +105,16 @@ def corr(ctx):
                 ctx.disagreements.append({"what": "more", "case": None, "impl": None, "model": None})
         for k, v in (r.get("oracle_tests") or {}).items():
             ctx.count("oracle:" + k, v)
+    # the statement of C02_faithful, evaluated by the extracted skeleton functions on the same real token trees
+    for case, r in zip(batch, M.statement_check(PID, batch)):
+        if r is None:
+            continue
+        ctx.corr_cases += 1
+        premises = r["static"] and not r["dropped"] and r["lexer_ok"]
+        ctx.count("statement:%s" % ("premises-hold" if premises else
+                                    "not-static" if not r["static"] else "dropped" if r["dropped"] else "lexer-violates-O_lexer_concat"))
+        if premises and not r["equal"]:
+            ctx.disagree("C02_faithful statement: skeletons differ although all premises hold", case, "skel_node(doc)", "skel_tok(tokens)")
     ctx.notes.append("correspondence: %d cases outside the modelled subset (not compared)" % n_notmodelled)
     if batch:
         ctx.sample({"correspondence_case": batch[len(batch) // 2]})
@@ -124,13 +134,19 @@ def replay(ctx, data):
     return c02_search.replay(ctx, data)
 
 
-LEVEL_TEXT = ("Proof (Coq): the renderer is modelled as programs over an instruction set with two semantics (the Python one: tree + "
-              "current-node path + section level map; a functional one: nodes appended to the current node); refinement of the "
-              "two is proved for every program (Doc/Refine.v), every render_<type> program of a token that cannot reach a "
-              "section-level heading restores the current node (C02_render_restores_cur), and the doctree's skeleton equals "
-              "the token tree's skeleton for every token forest the model renders (C02_faithful...). The model is tied to "
-              "base.py/sphinx_.py by Gen/Render.v (dispatch table, list style map, alignment classes, link dispatch order) and "
-              "by differential correspondence on real token trees in all modes and both renderers on every run.")
-LEVEL_NOTE = ("Trusted: Coq kernel; the transcription in Doc/Render.v (correspondence-checked); markdown-it/docutils/Sphinx library "
-              "functions enter as oracles; statements are about the static syntax subset (directives, roles, substitutions, "
-              "front matter, inv: links are outside). Open findings: see known_findings.json (C02).")
+LEVEL_TEXT = ("Proof (Coq, all theorems closed under the global context): the renderer is modelled as programs over an instruction "
+              "set with two semantics (the Python one: tree + current-node path + section level map; a functional one: nodes appended to "
+              "the current node); their refinement is proved for every program (C02_refinement); every token that cannot open a section "
+              "restores current node and level map (C02_render_restores_cur); for both back ends, every configuration and every token "
+              "forest of the static grammar (any depth) the skeleton of the doctree equals the skeleton of the token tree unless content "
+              "was dropped with a warning (C02_faithful, under O_lexer_concat, O_canon, O_no_files); back ends agree on the skeleton "
+              "(C02_backends_agree_partial); code verbatim under O_lexer_concat and refuted for a newline-stripping lexer. The model is "
+              "tied to base.py/sphinx_.py by Gen/Render.v (dispatch table, list style map, alignment classes, link dispatch order, raw "
+              "literals - proved equal to the specification's fixed tables) and by differential correspondence on real token trees in "
+              "all modes and both renderers; the statement of C02_faithful is itself evaluated (extracted) on every correspondence case.")
+LEVEL_NOTE = ("Trusted: Coq kernel; the transcription in Doc/Render.v (correspondence-checked, not proved); markdown-it/docutils/Sphinx "
+              "library functions enter as oracles answered by the real functions; the theorems are conditional on the model rendering "
+              "the forest (totality on the static grammar is measured, not proved); directives, roles, substitutions, front matter, inv: "
+              "links are outside the static grammar; gfm/linkify run without the linkify rule (linkify-it-py not installed). Partial: "
+              "C02_backends_agree (skeleton level only). Open findings: code-verbatim:pygments-stripnl, "
+              "backends:literal_block:pygments-stripnl, missing:footnote:label-clashes-with-name.")
